@@ -33,6 +33,11 @@ def assemble_part(tier, drv, cov):
         raise vlib.Broken("design model Assemble/%s fails: %s\n%s" % (cfg, r.violated or r.error, r.trace_text[:2000]))
     if len(r.vecs) < 15000:
         raise vlib.Broken("expected at least 15000 loop configurations from MC_Assemble, got %d" % len(r.vecs))
+    r2 = vlib.run_tlc("Assemble", "MC_Assemble_dups.cfg", timeout=3600, heap="8g", gc="parallel")
+    if not r2.ok or len(r2.vecs) < 2000:
+        raise vlib.Broken("design model Assemble/MC_Assemble_dups.cfg fails: %s (%d configurations)" % (r2.violated or r2.error, len(r2.vecs)))
+    r.vecs += r2.vecs + r2.vecs          # (twice: an order-dependent deletion shows in one of two runs)
+    r.distinct += r2.distinct
     p = vlib.run([drv, "assemble-replay"], input="\n".join(json.dumps({"os": x["os"], "is": x["is"]}) for x in r.vecs) + "\n", timeout=1800)
     if p.returncode != 0:
         raise vlib.Broken("assemble-replay failed: " + p.stderr[-2000:])
